@@ -253,7 +253,7 @@ def minimize_stub(ctx, monotone=True, name="scipy.optimize.minimize(f, x0, metho
         if monotone:
             fx, fx0 = fun(x), fun(x0)
             PathCtx.cur.add(lift(fx) <= lift(fx0))
-        calls.append(dict(fun=fun, x0=x0, x=x))
+        calls.append(dict(fun=fun, x0=x0, x=x.copy()))
         return _OptResult(x)
     return minimize
 
@@ -276,10 +276,10 @@ def record_minimize(ctx):
             # replay of a solver model: the dependency's result is forced to the (admissible) value of the model
             from fractions import Fraction
             x = np.array([float(Fraction(ctx.values[f"opt{n}_{i}"])) if isinstance(ctx.values[f"opt{n}_{i}"], str) else float(ctx.values[f"opt{n}_{i}"]) for i in range(size)])
-            calls.append(dict(fun=fun, x0=np.asarray(x0), x=x))
+            calls.append(dict(fun=fun, x0=np.asarray(x0), x=x.copy()))
             return _OptResult(x)
         r = real(fun, x0, *a, **k)
-        calls.append(dict(fun=fun, x0=np.asarray(x0), x=r.x))
+        calls.append(dict(fun=fun, x0=np.asarray(x0), x=np.array(r.x, copy=True)))      # callers may edit r.x in place afterwards
         return r
     if ctx.sym:
         yield
